@@ -443,10 +443,11 @@ def parallel_map_helpers(prog) -> dict:
             for it in its:
                 if isinstance(it, ast.Name) and it.id in names:
                     iterated.append(it.id)
-        fp = next((n for n in names if n.lower() in ("func", "fn", "function", "f", "worker", "callback") and n in called), None) or next((n for n in names if n in called), None)
+        # (a helper may pass both on to further helpers: then the conventional names decide)
+        fp = next((n for n in names if n.lower() in ("func", "fn", "function", "f", "worker", "callback")), None) or next((n for n in names if n in called), None)
         sp = next((n for n in names if "shared" in n.lower() or n.lower() in ("common_args", "fixed_args")), None)
         wp = next((n for n in names if ("worker" in n.lower() and n != fp) or n.lower() in ("processes", "n_jobs", "n_procs")), None)
-        ip = next((n for n in names if n in iterated and n not in (fp, sp, wp)), None)
+        ip = next((n for n in names if n.lower() in ("items", "iterable", "args_list", "tasks", "arguments", "argument_list", "jobs") and n not in (fp, sp, wp)), None) or next((n for n in names if n in iterated and n not in (fp, sp, wp)), None)
         if fp is None or ip is None:
             continue
         out[f.qual] = (f, fp, sp, ip, wp)
